@@ -36,6 +36,12 @@ func (e *Error) updateFromTokenIfNeeded(template *Template, t *Token) *Error {
 		e.Column = t.Col
 	}
 
+	if e.Filename == "" && e.Token != nil {
+		// A position is of little use without the source it refers to (e. g.
+		// errors returned by filter functions name none themselves).
+		e.Filename = e.Token.Filename
+	}
+
 	return e
 }
 
